@@ -1,15 +1,18 @@
 """C06 - command ring: each written command is read exactly once, intact, in order."""
 import itertools
 
+from vlib import core
 from vlib.term import z, to_coq
 from props import ringlib as R
 
 ID = 'C06'
 PROP_FILE = 'Props/C06.v'
-EVAL_FILES = ['Oracle/C06Oracle.v', 'Model/RingThreads.v']
+EXTRA_PROP_FILES = ['Props/C06Src.v']     # K1 source tie (tools/props/src_translate.py), see docs/reports/SRC.md
+EVAL_FILES = ['Oracle/C06Oracle.v', 'Model/RingThreads.v', 'Oracle/C06ProxyOracle.v']
 CRATES = ['c06']
 MODES = ['debug', 'release']
-IMPORTS = ('Require Import V.Base.MachineInt V.Model.LogBase V.Model.Ring V.Model.RingThreads V.Spec.Fifo V.Oracle.C06Oracle.')
+IMPORTS = ('Require Import V.Model.WireBytes V.Model.WireCodes V.Model.WireCommands V.Oracle.C13Oracle V.Oracle.C06ProxyOracle. '
+           'Require Import V.Base.MachineInt V.Model.LogBase V.Model.Ring V.Model.RingThreads V.Spec.Fifo V.Oracle.C06Oracle.')
 RULE = ('seq: operation sequences on one ring (write lengths 0..cap/8+1, read limits {0,1,2,max}, size, next id, heartbeat, '
         'unblock, dump after every op for small rings); length-6 sequences over {write len, read limit} for cap in {8,16,32,64} '
         '(thorough: exhaustive for cap 8 and 16, 40000 samples for 32 and 64; quick: stratified sample) with the start rotating over every '
@@ -18,8 +21,13 @@ RULE = ('seq: operation sequences on one ring (write lengths 0..cap/8+1, read li
         'conc: 2-3 producer threads x 1-3 writes + a consumer thread under the deterministic scheduler on the access hook: random '
         'schedules (uniform and bursty) + all schedules with at most one pre-emption for three fixed programs; trace of hook events, '
         'per-thread results, drain reads and final dump compared with the model. '
-        'non-trivial = seq: the writes pass the end of the data area and something is read; conc: every case')
+        'every write (seq and conc) takes its payload from offset 8, 16 or 0 of a larger source buffer filled with 0xA5. '
+        'proxy: 2-3 client threads issue 1-3 different commands each through ONE DriverProxy on one ring under the scheduler (parked '
+        'before every access to the ring: next_correlation_id, claim, header, copy, commit): every order of the first steps, one '
+        'pre-emption at every step, random schedules; the records drained at the end are judged by holds_proxy (no model run). '
+        'non-trivial = seq: the writes pass the end of the data area and something is read; conc, proxy: every case')
 ASSUMPTIONS = [
+    'known finding refusal-on-stale-tail (KNOWN_FINDINGS.txt): a refusal decided by the wrap check of a caller that was overtaken between its tail read and its head re-read is reported as KNOWN-FINDING, every other unjustified refusal is a violation',
     'message type ids are the command codes AeronCommand::from_command_id maps back (1..14, 0xF01..0xF0A); 0xF9 is C14\'s business',
     'write lengths are 0..cap/8 (+1 for the TooLong stream); negative lengths belong to C16',
     'the preset head cache may be arbitrarily stale (any value in [0, head]); positions stay below 2^62',
@@ -105,6 +113,7 @@ def generate(rng, tier):
                                    ['w', rng.choice(R.CMDS), rng.randrange(0, cap // 8 + 1), 0], ['r', rng.choice([-1, 0, 1, R.INF])]]))
         cases.append(_mk(cap, 8 * rng.randrange(0, 64), ops))
     cases += gen_conc(rng, tier)
+    cases += gen_proxy(rng, tier)
     rng.shuffle(cases)
     return cases
 
@@ -191,7 +200,106 @@ def gen_conc(rng, tier):
     return cases
 
 
+# ---- commands through one DriverProxy shared by several threads ---------------------------------------------
+def _req_token(r):
+    k = r['kind']
+    if k == 'addpub':
+        return 'addpub:%d:%d:%d:%d' % (1 if r['excl'] else 0, r['stream'], r['ck'], r['cn'])
+    if k == 'addsub':
+        return 'addsub:%d:%d:%d' % (r['stream'], r['ck'], r['cn'])
+    if k == 'remove':
+        return 'remove:%d:%d' % (r['k'], r['reg'])
+    if k == 'dest':
+        return 'dest:%d:%d:%d:%d' % (r['k'], r['reg'], r['ck'], r['cn'])
+    if k == 'counter':
+        return 'counter:%d:%d:%d:%d:%d' % (r['type'], r['kk'], r['kn'], r['lk'], r['ln'])
+    if k in ('keepalive', 'close'):
+        return k
+    if k == 'terminate':
+        return 'terminate:%d:%d' % (r['tk'], r['tn'])
+    raise ValueError(r)
+
+
+def _req_coq(r):
+    k = r['kind']
+    if k == 'addpub':
+        return 'RqAddPublication %s (cstr %s %s) %s' % ('true' if r['excl'] else 'false', z(r['ck']), z(r['cn']), z(r['stream']))
+    if k == 'addsub':
+        return 'RqAddSubscription (cstr %s %s) %s' % (z(r['ck']), z(r['cn']), z(r['stream']))
+    if k == 'remove':
+        return 'RqRemove %s %s' % (['RmPublication', 'RmSubscription', 'RmCounter'][r['k']], z(r['reg']))
+    if k == 'dest':
+        return 'RqDestination %s %s (cstr %s %s)' % (['DsAdd', 'DsRemove', 'DsAddRcv', 'DsRemoveRcv'][r['k']], z(r['reg']), z(r['ck']), z(r['cn']))
+    if k == 'counter':
+        return 'RqAddCounter %s (blob %s %s) (cstr %s %s)' % (z(r['type']), z(r['kk']), z(r['kn']), z(r['lk']), z(r['ln']))
+    if k == 'keepalive':
+        return 'RqKeepalive'
+    if k == 'close':
+        return 'RqClientClose'
+    if k == 'terminate':
+        return 'RqTerminateDriver (blob %s %s)' % (z(r['tk']), z(r['tn']))
+    raise ValueError(r)
+
+
+def _rand_req(rng, i):
+    k = rng.choice(['addpub', 'addpub', 'addsub', 'addsub', 'remove', 'dest', 'counter', 'keepalive', 'close'])
+    if k == 'addpub':
+        return {'kind': k, 'excl': rng.random() < 0.3, 'stream': 1000 + 17 * i + rng.randrange(0, 5), 'ck': 3 * i + 1, 'cn': rng.choice([1, 8, 21, 40, 90])}
+    if k == 'addsub':
+        return {'kind': k, 'stream': 2000 + 13 * i, 'ck': 5 * i + 2, 'cn': rng.choice([3, 12, 33, 70])}
+    if k == 'remove':
+        return {'kind': k, 'k': rng.randrange(0, 3), 'reg': 10**9 + 7 * i}
+    if k == 'dest':
+        return {'kind': k, 'k': rng.randrange(0, 4), 'reg': 5 * 10**8 + i, 'ck': 7 * i + 3, 'cn': rng.choice([5, 30, 64])}
+    if k == 'counter':
+        return {'kind': k, 'type': 100 + i, 'kk': i + 1, 'kn': rng.choice([0, 3, 8, 17]), 'lk': 11 * i + 4, 'ln': rng.choice([0, 6, 31])}
+    return {'kind': k}
+
+
+def _proxy(cap, c0, progs, sched):
+    return {'kind': 'proxy', 'cap': cap, 'c0': c0, 'progs': progs, 'sched': sched}
+
+
+def gen_proxy(rng, tier):
+    big = tier == 'thorough'
+    BIG = 400
+    cases = []
+    # two threads, different commands of different lengths: every split of the first thread's steps by the second
+    a = {'kind': 'addpub', 'excl': False, 'stream': 1001, 'ck': 1, 'cn': 40}
+    b = {'kind': 'addsub', 'stream': 2002, 'ck': 2, 'cn': 12}
+    c = {'kind': 'remove', 'k': 0, 'reg': 123456789012}
+    for first, second in ((a, b), (b, a), (a, c), (c, a)):
+        for j in range(0, 11):
+            for j2 in (1, 2, BIG):
+                cases.append(_proxy(1024, 7, [[first], [second]], [[0, j], [1, j2], [0, BIG], [1, BIG]]))
+    # commands on both sides of the ring's max message length (capacity / 8), which is below the proxy's 512-byte scratch buffer
+    # for small rings: an Ok answer must put exactly that record in front of the consumer, an Err answer nothing
+    for cap, lens in ((1024, (103, 104, 105, 200, 480)), (2048, (231, 232, 233, 480)), (4096, (480, 488, 489))):
+        for cn in lens:
+            long_pub = {'kind': 'addpub', 'excl': False, 'stream': 77, 'ck': 9, 'cn': cn}
+            long_sub = {'kind': 'addsub', 'stream': 78, 'ck': 10, 'cn': cn - 8}
+            for first, second in ((long_pub, c), (c, long_pub), (long_sub, b), (long_pub, long_sub)):
+                for j in (0, 1, 3, BIG):
+                    cases.append(_proxy(cap, 7, [[first, c], [second]], [[0, j], [1, 2], [0, BIG], [1, BIG]]))
+    for i in range(120 if not big else 4000):
+        nthr = rng.choice([2, 2, 3])
+        k = 0
+        progs = []
+        for _ in range(nthr):
+            prog = []
+            for _ in range(rng.randrange(1, 4)):
+                prog.append(_rand_req(rng, k))
+                k += 1
+            progs.append(prog)
+        sched = [[rng.randrange(0, nthr), rng.choice([1, 1, 2, 3, 5, 9])] for _ in range(rng.randrange(2, 16))]
+        cases.append(_proxy(rng.choice([1024, 1024, 4096]), rng.choice([0, 7, 2**40, -5]), progs, sched))
+    return cases
+
+
 def impl_line(c):
+    if c['kind'] == 'proxy':
+        return 'proxy %d %d %s sched=%s' % (c['cap'], c['c0'], ' '.join('thr=' + '|'.join(_req_token(r) for r in p) for p in c['progs']),
+                                         ','.join('%d*%d' % (t, n) for t, n in c['sched']))
     if c['kind'] == 'seq':
         return R.seq_line(c)
     if c['kind'] == 'conc':
@@ -200,6 +308,8 @@ def impl_line(c):
 
 
 def model_expr(c, mode):
+    if c['kind'] == 'proxy':
+        return None
     if c['kind'] == 'seq':
         return 'snd (run %s %s %s)' % (R.mode_c(mode), R.seq_init(c), R.ops_coq(c['ops']))
     if c['kind'] == 'conc':
@@ -208,6 +318,11 @@ def model_expr(c, mode):
 
 
 def oracle_expr(c, mode, obs):
+    if c['kind'] == 'proxy':
+        if isinstance(obs, int) or obs[0] != 'tuple' or len(obs[1]) != 2:
+            return 'false'
+        progs = '[' + '; '.join('[' + '; '.join(_req_coq(r) for r in p) + ']' for p in c['progs']) + ']'
+        return 'holds_proxy %s %s %s %s' % (z(c['c0']), progs, to_coq(obs[1][0]), to_coq(obs[1][1]))
     if c['kind'] == 'seq':
         return 'holds_seq %s %s %s %s %s %s' % (z(c['cap']), z(c['p0']), z(c['hc0']), z(c['c0']), R.ops_coq(c['ops']), to_coq(obs))
     if c['kind'] == 'conc':
@@ -216,6 +331,28 @@ def oracle_expr(c, mode, obs):
 
 
 normalize = R.normalize
+
+_known_cache = {}
+
+
+def known_class(c, mode, obs):
+    """refusal-on-stale-tail: decided by the Coq predicate KnownClass_refusal_on_stale_tail_obs on the implementation's observation
+    (everything else holds, some InsufficientCapacity answer is not justified at any instant of its call, and every such answer
+    was decided by a caller whose tail read had been overtaken when it re-read the head)."""
+    if c.get('kind') != 'conc' or isinstance(obs, int):
+        return None
+    text = to_coq(obs)
+    if 'InsufficientCapacity' not in text:
+        return None          # cheap pre-filter: the class needs a refused write
+    key = (c['cap'], c['p0'], R.ops_coq(c['pre']), R.progs_coq(c), R.ops_coq(c['post']), text)
+    if key not in _known_cache:
+        try:
+            v = core.coq_eval('C06_known_%d' % (len(_known_cache) % 8), IMPORTS,
+                              ['KnownClass_refusal_on_stale_tail_obs %s %s %s %s %s %s' % (z(c['cap']), z(c['p0']), key[2], key[3], key[4], text)])
+            _known_cache[key] = v[0] == ('app', 'true', [])
+        except Exception:
+            _known_cache[key] = False
+    return 'refusal-on-stale-tail' if _known_cache[key] else None
 
 
 def nontrivial(c):
